@@ -53,7 +53,7 @@ def variants_for(k: int, w: dict, nmods: int, tier: str) -> list[list[str]]:
     embeddings rotate with the case number; `rev` lists the rectangles of every module in reverse (trunk last)."""
     fl = [e for e in FLOATS if usable(e, w, nmods)]
     out = [["int", "fwd" if k % 2 == 0 else "rev"]]
-    n = 1 if tier == "quick" else 3
+    n = 1 if tier == "quick" else 2
     for j in range(n):
         e = fl[(k + j) % len(fl)]
         if all(e != v[0] for v in out):
@@ -425,7 +425,7 @@ def run(ctx: Ctx) -> int:
     # 3. seeded random driver: larger dies, more modules and branches, rational ratio limits, larger edits
     rng = random.Random(ctx.seed * 1000003 + 9)
     rcases = []
-    want = 150 if tier == "quick" else 1500
+    want = 150 if tier == "quick" else 1000
     while len(rcases) < want:
         c = random_case(rng)
         if c is None:
@@ -452,7 +452,7 @@ def run(ctx: Ctx) -> int:
     return ctx.finish(
         "model_checking",
         "TLC enumerates every netlist of the bounded universes (1-3 modules, trunk + <= 2 branches, soft/hard/fixed) and, per netlist, "
-        "the original configuration and every single-edit neighbour (module translation, branch slide, edge move, trunk-edge drag, "
+        "the original configuration and every single-edit neighbour (module translation, branch slide, trunk slide, edge move, trunk-edge drag, "
         "branch swap) that is legal or falsifies exactly one clause; evaluations = (netlist, embedding, configuration) triples on the "
         "real model; distinct non-trivial = distinct (die, netlist, configuration) judged by TLC with configuration != original",
         exhaustive=False)
